@@ -160,7 +160,7 @@ def run(ctx):
         return
     cases, meta = [], []
     n_alt_bad = 0
-    kinds_hist = {"pair": 0, "rand": 0, "look": 0}
+    kinds_hist = {"pair": 0, "rand": 0, "look": 0, "nest": 0}
     for line in out.split("\n"):
         p = line.split("\t")
         if len(p) != 7 or p[0] != "A":
